@@ -220,7 +220,7 @@ def check_C12(ctx):
 
 # --------------------------------------------------------------------------- C08
 
-C08_LAWS = ["RangeLaw", "NamesLaw", "IndexLaw", "SizeFirstLast", "MapSizeFallback", "NilPropagates", "StrictOnlyFinal", "PipelineIsSequential",
+C08_LAWS = ["RangeLaw", "NamesLaw", "LitNamesLaw", "IndexLaw", "SizeFirstLast", "MapSizeFallback", "NilPropagates", "StrictOnlyFinal", "PipelineIsSequential",
             "BadIsError"]
 
 
